@@ -1,9 +1,12 @@
 (* C03, layer D: the simulation invariant.  While an open-loop checkpointed plan is executed under an arbitrary
-   well-formed schedule with hard pause requests and resume() calls, the engine state is always "at a position of
-   the plan": the messages since the last checkpoint-like message are the cache, the frames on the plan stack
-   (replay lists on top of the user plan) will yield the rest of the plan in order, the bundler agrees with the
+   well-formed schedule with pause requests, resume() calls, suspension requests and releases, the engine state is
+   always "at a position of the plan": the messages since the last checkpoint-like message are the cache, the frames on
+   the plan stack (replay lists, single-message plans of suspension requests, suspender plans on top of the user plan)
+   will yield the rest of the plan in order, the bundler agrees with the
    abstract bundler of the reference semantics at that position, and the events emitted so far are events of the
-   reference run and contain those of the part of the plan that is behind the position. *)
+   reference run and contain those of the part of the plan that is behind the position.  The invariant is generic in
+   the engine's `rewindable` flag ([LinkR rw]): while a suspender plan keeps it off ([WinOK]: quiet frames on top of
+   that suspender plan) the cache is empty, so requests that arrive there replay nothing. *)
 From Coq Require Import List String ZArith Bool Arith Lia.
 From BV Require Import Engine.RE Engine.PointSpec Proofs.RE_Inv Proofs.RE_PointsA Proofs.RE_PointsB Proofs.RE_PointsC.
 Import ListNotations.
